@@ -26,6 +26,7 @@
 #include <string.h>
 #include <sys/wait.h>
 #include <sys/syscall.h>
+#include <sys/prctl.h>
 #include <time.h>
 #include <unistd.h>
 
@@ -177,13 +178,14 @@ static void do_fork(int t)
     fork_returned = 1;
     if (p == 0) {
         free_run = 1; probe_k = 0; close(pfd[0]);
+        setpgid(0, 0);                     /* own process group: the parent kills child AND grandchild, whatever state they are in */
         alarm(20);
         char b[32]; int n, e = 0;
         /* a grandchild: the child forks again and the grandchild execs too. Variant 0: the child execs first; variant 1 (odd schedules): the child
            forks again BEFORE it has made any exec call of its own */
         if (fork_variant == 0) { e = do_call(t, 99); n = snprintf(b, sizeof b, "ok %d", e); if (write(pfd[1], b, n) < 0) {} }
         pid_t g = fork();
-        if (g == 0) { int e2 = do_call(t, 98); _exit(e2 == ENOENT ? 0 : 3); }
+        if (g == 0) { prctl(PR_SET_PDEATHSIG, SIGKILL); int e2 = do_call(t, 98); _exit(e2 == ENOENT ? 0 : 3); }
         int st = 0; waitpid(g, &st, 0);
         if (fork_variant == 1) { e = do_call(t, 99); n = snprintf(b, sizeof b, "ok %d", e); if (write(pfd[1], b, n) < 0) {} }
         if (write(pfd[1], WIFEXITED(st) && WEXITSTATUS(st) == 0 ? " gok" : " gbad", 5) < 0) {}
@@ -200,6 +202,12 @@ static void do_fork(int t)
             /* a single-threaded child that sits in futex() for a whole second is waiting for a lock nobody in it can release: no need to wait 8 s */
             char sp0[64], sc0[64] = ""; snprintf(sp0, sizeof sp0, "/proc/%d/syscall", (int) p);
             int f0 = open(sp0, O_RDONLY); if (f0 >= 0) { ssize_t r0 = read(f0, sc0, sizeof sc0 - 1); if (r0 > 0) sc0[r0] = 0; close(f0); }
+            if (!strncmp(sc0, "61 ", 3)) {        /* the child waits for the grandchild: look at that one */
+                char cp0[96], kids[64] = ""; snprintf(cp0, sizeof cp0, "/proc/%d/task/%d/children", (int) p, (int) p);
+                int fk = open(cp0, O_RDONLY); if (fk >= 0) { ssize_t rk = read(fk, kids, sizeof kids - 1); if (rk > 0) kids[rk] = 0; close(fk); }
+                int g0 = atoi(kids);
+                if (g0 > 0) { snprintf(sp0, sizeof sp0, "/proc/%d/syscall", g0); sc0[0] = 0; f0 = open(sp0, O_RDONLY); if (f0 >= 0) { ssize_t r0 = read(f0, sc0, sizeof sc0 - 1); if (r0 > 0) sc0[r0] = 0; close(f0); } }
+            }
             in_futex = !strncmp(sc0, "202 ", 4) ? in_futex + 1 : 0;
             if (in_futex >= 5) break;
         }
@@ -214,7 +222,7 @@ static void do_fork(int t)
         else if (!strncmp(sc, "202 ", 4)) { child_status[t] = 2; snprintf(child_note[t], sizeof child_note[t], "child blocked in futex after saying '%s'", buf); }
         else { child_status[t] = 4; snprintf(child_note[t], sizeof child_note[t], "child not finished, syscall '%.40s', said '%s'", sc, buf); }
     }
-    kill(p, SIGKILL); waitpid(p, NULL, 0); close(pfd[0]);
+    kill(-p, SIGKILL); kill(p, SIGKILL); waitpid(p, NULL, 0); close(pfd[0]);
 }
 
 static void *probe_caller(void *arg) { (void) arg; me = 1; call_ret[1][1] = do_call(1, 1); return NULL; }
@@ -266,7 +274,7 @@ static int run_schedule(char *line, FILE *out, const char *logpath)
         }
         if (a == 'f') fork_request[t] = 1;
         sem_post(&go[t]);
-        struct timespec ts; clock_gettime(CLOCK_REALTIME, &ts); ts.tv_sec += 15;
+        struct timespec ts; clock_gettime(CLOCK_REALTIME, &ts); ts.tv_sec += 4;
         if (sem_timedwait(&parked, &ts) != 0) {
             /* thread t did not reach a scheduling point. Either the code deadlocks, or it blocks on something another PARKED
                thread holds (then the schedule is simply not executable under a cooperative scheduler). Decide by state:
@@ -287,7 +295,7 @@ static int run_schedule(char *line, FILE *out, const char *logpath)
     /* let everything finish (a schedule from the specification leaves nobody inside a call) */
     for (int round = 0; round < 2000; round++) {
         int busy = 0;
-        for (int i = 1; i <= nthreads; i++) if (state[i] != ST_DONE) { busy = 1; sem_post(&go[i]); struct timespec ts; clock_gettime(CLOCK_REALTIME, &ts); ts.tv_sec += 15; if (sem_timedwait(&parked, &ts)) { fprintf(out, "{\"hang\":-1,\"thread\":%d}\n", i); fflush(out); _exit(0); } }
+        for (int i = 1; i <= nthreads; i++) if (state[i] != ST_DONE) { busy = 1; sem_post(&go[i]); struct timespec ts; clock_gettime(CLOCK_REALTIME, &ts); ts.tv_sec += 4; if (sem_timedwait(&parked, &ts)) { fprintf(out, "{\"hang\":-1,\"thread\":%d}\n", i); fflush(out); _exit(0); } }
         if (!busy) break;
     }
     char fin[256]; project(fin, sizeof fin);
